@@ -14,6 +14,7 @@ limitations under the License.
 package dir
 
 import (
+	"errors"
 	"fmt"
 	"os"
 	"path/filepath"
@@ -69,6 +70,13 @@ func (d *Dir) Write(files map[string][]byte) error {
 		}
 		d.log.Infof("Written file %s", file)
 		verifhook.Point("dir.write.step", 3, file)
+	}
+
+	// A previous Write that died between Symlink and Rename leaves
+	// <target>.new behind. Symlink never replaces an existing name, so remove
+	// the stale link first.
+	if err := os.Remove(d.target + ".new"); err != nil && !errors.Is(err, os.ErrNotExist) {
+		return err
 	}
 
 	if err := os.Symlink(newDir, d.target+".new"); err != nil {
